@@ -342,18 +342,22 @@ const char * etcLdSoPreload_findNonCommentLineContainingString (const char * con
 
     while ((foundStringPos = strstr(contentPos, searchString)) != NULL) {
 
-        // Search in reverse for a newline character, or start of the buffer
+        // Search in reverse for the start of the line, or start of the buffer.
+        // (Do not stop at contentPos: a second match on the same commented-out
+        // line would otherwise be mistaken for the start of an active line.)
         for (
             lineStartPtr = foundStringPos;
-            (lineStartPtr > contentPos) && (*lineStartPtr != '\n');
+            (lineStartPtr > content) && (lineStartPtr[-1] != '\n');
             lineStartPtr--
         );
 
-        if (*lineStartPtr == '\n') {
-            lineStartPtr++;
+        // A comment line may be indented
+        const char * firstNonBlankPtr = lineStartPtr;
+        while ((*firstNonBlankPtr == ' ') || (*firstNonBlankPtr == '\t')) {
+            firstNonBlankPtr++;
         }
 
-        if (*lineStartPtr != '#') {
+        if (*firstNonBlankPtr != '#') {
             // This is not a commented-out line, therefore a valid search string has been found
             return lineStartPtr;
         }
